@@ -539,6 +539,24 @@ class RewriterMethod(Spec):
         return {}
 
 
-SPECS = []
+def make_specs(tier):
+    specs = []
+
+    def add(s, insts=None):
+        s.instances = insts or [{}]
+        specs.append(s)
+
+    for k in HANDLER_FIELD:
+        add(D[k])
+    add(Extend("BuilderListener"))
+    add(Extend("PatternRewriterListener"), [{"prl": True}, {"prl": False}])
+    for m in ("erase", "notify_op_modified", "replace_all_uses_with", "replace_value_with_new_type", "insert_block_argument",
+              "erase_block_argument", "inline_block", "move_region_contents_to_new_regions", "inline_region"):
+        add(RewriterMethod(m))
+    add(RewriterMethod("insert"), [{"single": True}, {"single": False}])
+    return specs
+
+
 NATIVE = []
 ASSUMPTIONS = []
+SPECS = make_specs(os.environ.get("VERIF_TIER", "quick"))
